@@ -548,6 +548,8 @@ def install_spies():
             if rec is None:
                 return orig(self, *a, **kw)
             try:
+                if kind == "geo" and "tr" in rec.monitors and a:
+                    rec.notes.setdefault("geo_targets", []).append((int(a[0]), int(self.best_index)))
                 if kind == "tr" and "tr" in rec.monitors:
                     rec.tr.append(_tr_state(self, rec))
                 elif kind == "tr" and "pts" in rec.monitors:
